@@ -12,6 +12,9 @@ Model of `rlib/treap/src/{treap_node.rs, treap.rs}` (properties C03, C16), core 
 * `seq`      — the sequence a tree represents (pending tags of all ancestors applied): the spec view.
 * `Op`, `stepM`, `runM` — the operation language of the correspondence check on a vector of live
   treaps; `stepS`, `runS` — the same language on plain lists (the executable specification).
+  `removeAt` returns the ITEM (not its value): `Op.moveAt` / `Op.takeAt` hand exactly that item to
+  `insertAt` / `single` again, `Op.dup` clones the only element through `first`/`last`/`collect`
+  (`pick`), `Op.collect2` is `collect_into` of two roots into one vector.
 * `isHeap`, `prios`, `skel`, `consLeft`, `cartShape`, `height` — C16.
 -/
 namespace Rlib.Treap
